@@ -92,7 +92,7 @@ func (d *bigStateDelegate) LocalState(join bool) []byte       { return d.state }
 func (d *bigStateDelegate) MergeRemoteState(b []byte, j bool) {}
 
 // runC20StalledPeer (real sockets, real time): a peer sends a genuine push/pull request and then never
-// reads; the node's reply (a user state far larger than the socket buffers) blocks in the kernel. Leave
+// reads; the node's reply (a 16 MiB user state, larger than the socket buffers) blocks in the kernel. Leave
 // with a 300 ms timeout, Members and LocalNode must all return promptly: the verdict limit is 8 s with
 // a TCPTimeout of 40 s, so only a call that waits for the stalled write can exceed it.
 func runC20StalledPeer(run *Run, iter int) (out []*c01Result) {
@@ -108,7 +108,7 @@ func runC20StalledPeer(run *Run, iter int) (out []*c01Result) {
 	cf.TCPTimeout = 40 * time.Second
 	cf.EnableCompression = false // (a constant 48 MiB state would shrink to nothing)
 	cf.Logger = log.New(io.Discard, "", 0)
-	cf.Delegate = &bigStateDelegate{state: bytes.Repeat([]byte{0x42}, 48<<20)}
+	cf.Delegate = &bigStateDelegate{state: bytes.Repeat([]byte{0x42}, 16<<20)}
 	m, err := memberlist.Create(cf)
 	if err != nil {
 		fail("harness/create", "%v", err)
@@ -121,6 +121,10 @@ func runC20StalledPeer(run *Run, iter int) (out []*c01Result) {
 		return
 	}
 	defer conn.Close()
+	if tc, ok := conn.(*net.TCPConn); ok {
+		_ = tc.SetReadBuffer(64 << 10) // we never read: keep what the kernel buffers on our side small
+	}
+	Heartbeat()
 	req := BuildPushPull(false, nil, nil)
 	if _, err := conn.Write(req); err != nil {
 		run.Count("real_iterations_skipped_dial", 1)
